@@ -224,8 +224,17 @@ def run(ctx):
             if mode == 'array':
                 offs = np.array([rng.uniform(-0.99, 0.99) * float(half) for _ in range(4)])
                 others = [Time(x[2]['tmid_str'], format='mjd', precision=9) for x in rng.sample(spans, min(2, len(spans)))]
-                times = Time([base_t + offs[0] * u.s, base_t + offs[1] * u.s] + [o + offs[2 + j] * u.s for j, o in enumerate(others)])
-                tlist = list(times)
+                tl = [base_t + offs[0] * u.s, base_t + offs[1] * u.s] + [o + offs[2 + j] * u.s for j, o in enumerate(others)]
+                arrangement = rng.choice(['as_is', 'shuffled', 'same_entry_at_both_ends', 'two_d'])
+                if arrangement == 'shuffled':
+                    rng.shuffle(tl)
+                elif arrangement == 'same_entry_at_both_ends':
+                    tl = [tl[0]] + tl[2:] + [tl[1]]            # first and last from one entry, the others in between
+                times = Time(tl)
+                if arrangement == 'two_d' and len(tl) == 4:
+                    times = times.reshape(2, 2)
+                tlist = list(times.reshape(-1))
+                ctx.count('array:' + arrangement)
             else:
                 times = base_t + off * u.s
                 tlist = [times]
@@ -236,7 +245,7 @@ def run(ctx):
             near_end = any(abs(x - bb) < Fr(2, 10 ** 5) or abs(x - aa) < Fr(2, 10 ** 5) for x in ts for aa, bb, _ in spans)
             try:
                 r = p(times)
-                vals = [phase_exact(r)] if times.isscalar else [phase_exact(r[j]) for j in range(len(tlist))]
+                vals = [phase_exact(r)] if times.isscalar else [phase_exact(x) for x in r.reshape(-1)]
                 err = None
             except ValueError as ex:
                 vals, err = None, ex
